@@ -637,11 +637,20 @@ func init() {
 	// C13: magnet start with lying / garbage / rejecting metadata peers and size games
 	Register(&Scenario{Name: "magnet", Gen: func(r *simrt.Rand, tier string, p *Plan) {
 		tp := genTransferBase(r, tier)
+		// metadata stallers (see below); the replaying kind needs metadata of several blocks
+		stallMode := ""
+		if r.Chance(0.3) {
+			stallMode = simrt.Pick(r, []string{"silent", "silent", "replay", "replay"})
+		}
 		// bigger metadata (several 16 KiB pieces) sometimes: many small files
-		if r.Chance(0.4) {
+		if r.Chance(0.4) || stallMode == "replay" {
 			tp.Layout.Single = false
 			var files []gen.FileSpec
-			for i := 0; i < r.Range(50, 600); i++ {
+			nf := r.Range(50, 600)
+			if stallMode == "replay" {
+				nf = r.Range(350, 800) // two blocks of metadata at least
+			}
+			for i := 0; i < nf; i++ {
 				files = append(files, gen.FileSpec{Path: []string{fmt.Sprintf("dir%03d", i%7), fmt.Sprintf("file-with-a-rather-long-name-%05d.bin", i)}, Length: int64(r.Range(0, 300))})
 			}
 			tp.Layout.Files = files
@@ -689,13 +698,14 @@ func init() {
 			ps := PeerSpec{Name: fmt.Sprintf("m%d", i), B: b, Mode: simrt.Pick(r, []string{"dial", "listen"}), At: r.Dur(0, tp.FaultsStop/2), Redial: r.Dur(time.Second, 8*time.Second), Via: simrt.Pick(r, []string{"magnet", "manual"})}
 			tp.Peers = append(tp.Peers, ps)
 		}
-		if r.Chance(0.3) {
+		if stallMode != "" {
 			// metadata stallers: they advertise the metadata, never answer a request, keep the
 			// client choked and stay connected for good; as many as there are download slots,
 			// connected before the honest peer (only the snub timer frees their slots)
 			tp.K.RequestTimeout = r.Dur(2*time.Second, 10*time.Second)
+			mode := stallMode
 			for i := 0; i < max(1, tp.K.ParallelMetadataDownloads)+r.Range(0, 1); i++ {
-				b := refbt.Behavior{Fast: r.Chance(0.5), Ext: true, Announce: "auto", Have: refbt.FullBits(np), MetaMode: "silent", MetaLimit: effLimit, NeverUnchoke: r.Chance(0.7)}
+				b := refbt.Behavior{Fast: r.Chance(0.5), Ext: true, Announce: "auto", Have: refbt.FullBits(np), MetaMode: mode, MetaLimit: effLimit, NeverUnchoke: r.Chance(0.7)}
 				tp.Peers = append(tp.Peers, PeerSpec{Name: fmt.Sprintf("st%d", i), B: b, Mode: simrt.Pick(r, []string{"dial", "listen"}), At: r.Dur(0, 2*time.Second), Via: simrt.Pick(r, []string{"magnet", "manual"}), Stays: true})
 			}
 			tp.Peers[0].At = r.Dur(3*time.Second, tp.FaultsStop)
